@@ -23,6 +23,7 @@ def configs(tier):
         add(spec('sequence', 'rleja', 2, 1, 4)); add(spec('sequence', 'min-delta', 1, 1, 8)); add(spec('sequence', 'leja', 3, 1, 2))
         add(spec('fourier', 'fourier', 1, 1, 1)); add(spec('fourier', 'fourier', 2, 1, 1))
         add(spec('localp', 'localp', 2, 1, 2, order=1), 16); add(spec('localp', 'semi-localp', 1, 1, 3, order=2), 12); add(spec('localp', 'localp-boundary', 2, 1, 1, order=1), 12); add(spec('localp', 'localp-boundary', 3, 1, 2, order=1), 24); add(spec('localp', 'semi-localp', 3, 1, 2, order=2), 24); add(spec('localp', 'localp', 3, 1, 2, order=1), 16); add(spec('localp', 'localp', 1, 1, 3, order=3), 12)
+        add(spec('localp', 'localp', 3, 1, 3, order=1), 30); add(spec('localp', 'semi-localp', 3, 1, 3, order=-1), 20); add(spec('localp', 'localp-boundary', 3, 1, 2, order=2), 20)   # ancestor chains of length >= 3 in the Kronecker path (levels 2 and 3)
         add(spec('wavelet', 'wavelet', 1, 2, 1, order=1), 10)
         # the same exactness on grids reached through update / copy / round trip (rules that use alpha and beta included)
         add(spec('global', 'gauss-jacobi', 2, 1, 3, alpha=2.0, beta=0.5), hist=1); add(spec('global', 'gauss-hermite', 2, 1, 3, alpha=2.0), hist=1); add(spec('global', 'clenshaw-curtis', 2, 1, 2), hist=2)
